@@ -92,6 +92,25 @@ def run(tier: str) -> int:
             if t0.add_ws is not want_ws:
                 ck.py_violation(line, f"add_ws={t0.add_ws}", f"{mname}.{name}() default add_ws={t0.add_ws}, project classifies it as {'inline' if not want_ws else 'block'}",
                                 py=f"htmltools.{mname}.{name}().add_ws")
+            # "creates its own element": a call never hands out an object another call handed out, even after
+            # the earlier result has been modified through the public API (multi-step history)
+            t0.add_class("mine")
+            t0.append("extra child")
+            t0.attrs["data-owner"] = "first"
+            t1 = f()
+            ck.holds_checked += 1
+            if t1 is t0 or canon(t1) != canon(Tag(name, _add_ws=want_ws)) or str(t1) != str(Tag(name, _add_ws=want_ws)):
+                ck.py_violation(line, str(t1), f"{mname}.{name}() after modifying an earlier result returns {str(t1)!r} "
+                                f"(same object: {t1 is t0}); a fresh <{name}> element is required",
+                                py=f"t = htmltools.{mname}.{name}(); t.add_class('mine'); t.append('extra child'); htmltools.{mname}.{name}()")
+                continue
+            for kwargs in ({"id": "x"}, {"_add_ws": want_ws}):
+                a1 = f("c", **kwargs)
+                a1.append("more")
+                a2 = f("c", **kwargs)
+                if a2 is a1 or len(a2.children) != 1:
+                    ck.py_violation(line, str(a2), f"{mname}.{name}('c', **{kwargs}) shares state between calls")
+                    break
             for b in (True, False):
                 if f(_add_ws=b).add_ws is not b:
                     ck.py_violation(line, "", f"{mname}.{name}(_add_ws={b}) not honoured")
